@@ -115,6 +115,11 @@ pub fn run_ops<T: HScalar, P: Prob<T>>(mut p: P, ops: &[Value], out: &mut Vec<Va
                 out.push(json!({"op": "into_seq"}));
                 return run_ops::<T, P::Seq>(q, &ops[i..], out, ctx);
             }
+            "into_par" => {
+                let q = p.p_into_par();
+                out.push(json!({"op": "into_par"}));
+                return run_ops::<T, P::Seq>(q, &ops[i..], out, ctx);
+            }
             "fit" => {
                 let solver = solver_opt::<T>(&op[1]);
                 let log_before = p.p_model().shared.lock().unwrap().log.len();
@@ -158,7 +163,7 @@ pub fn run_ops<T: HScalar, P: Prob<T>>(mut p: P, ops: &[Value], out: &mut Vec<Va
                                     })
                                     .collect();
                                 json!({
-                                    "cov": mat_out(&s.cov), "corr": mat_out(&s.corr), "wres": vec_out(&s.wres),
+                                    "cov": mat_out(&s.cov), "corr": mat_out(&s.corr), "corr_deprecated": mat_out(&s.corr_deprecated), "wres": vec_out(&s.wres),
                                     "chi2": s.chi2.to_hex(), "rse": s.rse.to_hex(),
                                     "nl_var": vec_out(&s.nl_var), "lin_var": vec_out(&s.lin_var),
                                     "dof": s.dof, "usigma": vec_out(&s.usigma), "bands": bands,
